@@ -8,6 +8,11 @@
  *                                                      comes back short after <limit> bytes (0 = fails outright)
  *        c20_sample exhs   <shard> <nshards>           every width x len 1..6 x {complete, truncated, longer} stream x
  *                                                      every limit 0..need+1 on 8 flag sets, callback handle
+ *        c20_sample cuts   <maxcuts> <module>...       loader-level truncation: the module is loaded whole (recording where
+ *                                                      each sample's stored bytes start and end), then cut at
+ *                                                      sample_start + {-1..6} and sample_end - {0,1,2} of EVERY sample and
+ *                                                      loaded through memory, FILE and callbacks; every exposed sample must be a
+ *                                                      prefix of what the whole file exposes and not longer than what is present
  *        c20_sample replay <file>                      case lines (other lines ignored)
  *        c20_sample corpus <maxbytes> <module>...     load real modules from memory; every call a loader makes to
  *                                                      libxmp_load_sample is intercepted (-Wl,--wrap), recorded as a
@@ -198,9 +203,10 @@ static long alloc_diff(const struct xmp_sample *s, const unsigned char *snap, si
 static void play_phase(const struct tcase *c, struct xmp_sample *s)
 {
 	static const int interps[3] = { XMP_INTERP_NEAREST, XMP_INTERP_LINEAR, XMP_INTERP_SPLINE };
-	int fl = frame_len(s->flg), variant, ip, k, frames;
+	int fl = frame_len(s->flg), variant, ip, k, frames, nframes;
 	size_t n = 4 + (size_t)s->len * fl + 4 * fl;
 	unsigned char *snap;
+	static unsigned char other[40], other_snap[40];
 	xmp_context opaque;
 	struct context_data *ctx;
 	struct module_data *m;
@@ -221,24 +227,36 @@ static void play_phase(const struct tcase *c, struct xmp_sample *s)
 	libxmp_load_prologue(ctx);
 	mod->len = 1;
 	mod->pat = 1;
-	mod->ins = 1;
+	mod->ins = 2;
 	mod->chn = 1;
 	mod->trk = 1;
-	mod->smp = 1;
+	mod->smp = 2;
 	mod->xxo[0] = 0;
 	libxmp_init_pattern(mod);
 	libxmp_alloc_pattern_tracks(mod, 0, 64);
 	libxmp_init_instrument(m);
-	mod->xxi[0].nsm = 1;
-	libxmp_alloc_subinstrument(mod, 0, 1);
-	mod->xxi[0].sub[0].pan = 0x80;
-	mod->xxi[0].sub[0].vol = 0x40;
-	mod->xxi[0].sub[0].sid = 0;
+	for (k = 0; k < 2; k++) {
+		mod->xxi[k].nsm = 1;
+		libxmp_alloc_subinstrument(mod, k, 1);
+		mod->xxi[k].sub[0].pan = 0x80;
+		mod->xxi[k].sub[0].vol = 0x40;
+		mod->xxi[k].sub[0].sid = k;
+	}
+	/* second instrument: a small looped 8-bit sample of our own, the partner of the Protracker sample swaps */
+	for (k = 0; k < 32; k++)
+		other[4 + k] = (unsigned char)(k * 37 + 11);
+	memset(other, other[4], 4);
+	memset(other + 36, other[35], 4);
+	memcpy(other_snap, other, sizeof(other));
 	e = &mod->xxt[mod->xxp[0]->index[0]]->event[0];
 	e->note = 49 + (s->len % 36);
 	e->ins = 1;
+	/* instrument numbers without a note: in Protracker mode the named sample takes over at the loop end of the playing one */
+	mod->xxt[mod->xxp[0]->index[0]]->event[1].ins = 2;
+	mod->xxt[mod->xxp[0]->index[0]]->event[2].ins = 1;
+	mod->xxt[mod->xxp[0]->index[0]]->event[3].ins = 2;
 
-	for (variant = 0; variant < 3; variant++) {
+	for (variant = 0; variant < 4; variant++) {
 		struct xmp_sample v = *s;
 		if (variant == 1) {
 			v.flg = (v.flg & ~(XMP_SAMPLE_LOOP_BIDIR | XMP_SAMPLE_LOOP_REVERSE | XMP_SAMPLE_LOOP_FULL)) | XMP_SAMPLE_LOOP;
@@ -252,20 +270,36 @@ static void play_phase(const struct tcase *c, struct xmp_sample *s)
 			v.flg |= XMP_SAMPLE_LOOP | XMP_SAMPLE_LOOP_BIDIR;
 			v.lps = 1;
 			v.lpe = v.len - 2;
+		} else if (variant == 3) {
+			/* Protracker sample swaps between two looped samples */
+			if (v.len < 4 || v.len > 1024)
+				continue;
+			v.flg = (v.flg & ~(XMP_SAMPLE_LOOP_BIDIR | XMP_SAMPLE_LOOP_REVERSE | XMP_SAMPLE_LOOP_FULL)) | XMP_SAMPLE_LOOP;
+			v.lps = v.len / 3 + 1;
+			v.lpe = v.len - 1;
+			m->quirk |= QUIRK_PROTRACK;
+			m->read_event_type = READ_EVENT_MOD;
 		}
 		mod->xxs[0] = v;
+		memset(&mod->xxs[1], 0, sizeof(mod->xxs[1]));
+		mod->xxs[1].len = 32;
+		mod->xxs[1].lps = 8;
+		mod->xxs[1].lpe = 24;
+		mod->xxs[1].flg = XMP_SAMPLE_LOOP;
+		mod->xxs[1].data = other + 4;
+		nframes = variant == 3 ? 26 : frames;
 		libxmp_load_epilogue(ctx);	/* every exposed header went through it (sustain loop vs m->xtra, loop range) */
 		if (variant == 0) {
 			libxmp_prepare_scan(ctx);
 			libxmp_scan_sequences(ctx);
 			ctx->state = XMP_STATE_LOADED;
 		}
-		for (ip = 0; ip < 3; ip++) {
+		for (ip = (variant == 3 ? 1 : 0); ip < 3; ip++) {
 			if (xmp_start_player(opaque, 8000, (c->len & 1) ? XMP_FORMAT_MONO : 0) != 0)
 				continue;
 			xmp_set_player(opaque, XMP_PLAYER_INTERP, interps[ip]);
 			d = -1;
-			for (k = 0; k < frames && d < 0; k++) {
+			for (k = 0; k < nframes && d < 0; k++) {
 				if (xmp_play_frame(opaque) != 0)
 					break;
 				d = alloc_diff(s, snap, n);
@@ -273,6 +307,11 @@ static void play_phase(const struct tcase *c, struct xmp_sample *s)
 			xmp_end_player(opaque);
 			if (d < 0)
 				d = alloc_diff(s, snap, n);
+			if (d < 0 && memcmp(other, other_snap, sizeof(other)) != 0) {
+				printf("O %s playback-modified the partner sample of the swap, header variant %d, interp %d\n", c->id, variant, ip);
+				memcpy(other, other_snap, sizeof(other));
+				goto done;
+			}
 			if (d >= 0) {
 				printf("O %s playback-modified byte %ld (data[%ld]) of %lu, header variant %d loop=[%d,%d) flg=%d, interp %d\n",
 				       c->id, d, d - 4, (unsigned long)n, variant, v.lps, v.lpe, v.flg, ip);
@@ -284,6 +323,7 @@ static void play_phase(const struct tcase *c, struct xmp_sample *s)
     done:
 	plays_done++;
 	mod->xxs[0].data = NULL;	/* the sample memory stays ours */
+	mod->xxs[1].data = NULL;
 	xmp_release_module(opaque);
 	xmp_free_context(opaque);
 	free(snap);
@@ -379,6 +419,16 @@ static void run_case(struct tcase *c)
 
 static int frame_len(int flg);
 
+/* ---------------------------------------------------------------- cuts: where each sample's stored bytes are */
+
+struct smprec {
+	int valid, flags, len_decl, flg;
+	long pos, consumed;
+};
+static struct smprec cut_rec[MAX_SAMPLES], cut_rec2[MAX_SAMPLES];	/* whole file ; the cut file being loaded */
+static const unsigned char *cut_base;
+static int cut_recording;
+
 int __wrap_libxmp_load_sample(struct module_data *m, HIO_HANDLE *f, int flags, struct xmp_sample *xxs, const void *buffer)
 {
 	int len = xxs->len, lps = xxs->lps, lpe = xxs->lpe, flg = xxs->flg, ret, fl, record = spy_on;
@@ -386,6 +436,21 @@ int __wrap_libxmp_load_sample(struct module_data *m, HIO_HANDLE *f, int flags, s
 	unsigned char *mem = NULL;
 	char id[48];
 
+	if (cut_recording && m != NULL && f != NULL && m->mod.xxs != NULL && xxs >= m->mod.xxs && xxs < m->mod.xxs + m->mod.smp
+	    && xxs - m->mod.xxs < MAX_SAMPLES
+	    && (cut_recording == 2 || (HIO_HANDLE_TYPE(f) == HIO_HANDLE_TYPE_MEMORY && hio_get_underlying_memory(f) == cut_base))) {
+		struct smprec *r = (cut_recording == 2 ? cut_rec2 : cut_rec) + (xxs - m->mod.xxs);
+		r->valid = !r->valid && xxs->data == NULL;	/* loaded exactly once, from the module's own stream */
+		r->flags = flags;
+		r->len_decl = xxs->len;
+		r->flg = xxs->flg;
+		r->pos = hio_tell(f);
+		ret = __real_libxmp_load_sample(m, f, flags, xxs, buffer);
+		r->consumed = hio_tell(f) - r->pos;
+		if (ret != 0 || r->pos < 0 || r->consumed < 0)
+			r->valid = 0;
+		return ret;
+	}
 	if (!spy_on)
 		return __real_libxmp_load_sample(m, f, flags, xxs, buffer);
 	spy_seen++;
@@ -603,6 +668,243 @@ static int corpus(long maxbytes, int nfiles, char **files)
 	printf("spy recorded=%ld unrecorded=%ld callback_handle=%ld toolarge=%ld preset=%ld skippath=%ld file_handle=%ld "
 	       "epilogue_headers=%ld final_headers=%ld modules_played=%ld\n", spy_recorded,
 	       spy_unrecorded, spy_nonmem, spy_toolarge, spy_preset, spy_skippath, spy_filehandle, epi_recorded, final_checked, corpus_played);
+	return 0;
+}
+
+/* ---------------------------------------------------------------- cuts mode */
+
+struct fullsmp {
+	int has, len, flg;
+	unsigned char *pcm;
+};
+
+static int cmp_long(const void *a, const void *b)
+{
+	long x = *(const long *)a, y = *(const long *)b;
+	return x < y ? -1 : x > y;
+}
+
+static int load_entry(xmp_context ctx, int entry, const unsigned char *data, long n)
+{
+	if (entry == 0) {
+		return xmp_load_module_from_memory(ctx, data, n);
+	} else if (entry == 1) {
+		FILE *fp = tmpfile();
+		int r;
+		if (!fp)
+			return -99;
+		if (fwrite(data, 1, n, fp) != (size_t)n) {
+			fclose(fp);
+			return -99;
+		}
+		rewind(fp);
+		r = xmp_load_module_from_file(ctx, fp, n);
+		fclose(fp);
+		return r;
+	} else {
+		static struct cbstream st;
+		struct xmp_callbacks cbs;
+		cbs.read_func = cb_read;
+		cbs.seek_func = cb_seek;
+		cbs.tell_func = cb_tell;
+		cbs.close_func = cb_close;
+		memset(&st, 0, sizeof(st));
+		st.data = data;
+		st.size = n;
+		st.left = LONG_MAX / 2;	/* a budget over all reads: unlimited here */
+		return xmp_load_module_from_callbacks(ctx, &st, cbs);
+	}
+}
+
+static long cut_loads, cut_rejected, cut_compared, cut_rulec, cut_truncated_seen, cut_empty_seen, cut_modules, cut_other_layout;
+
+static void cuts_one(const char *path, int maxcuts)
+{
+	static const char *ename[3] = { "memory", "file", "callbacks" };
+	long size = 0, *cuts, total = 0;
+	unsigned char *data = read_file(path, &size);
+	xmp_context ctx;
+	struct context_data *c;
+	struct fullsmp *full;
+	int nsmp, i, j, k, ncuts = 0, entry, r, fails = 0;
+	int w_pat, w_trk, w_chn, w_ins, w_len;
+	char prefix[24], w_type[XMP_NAME_SIZE];
+
+	if (!data || size <= 8 || size > 600000) {
+		free(data);
+		return;
+	}
+	snprintf(prefix, sizeof(prefix), "c%08lx", (unsigned long)(fnv1a(FNV_INIT, path, strlen(path)) & 0xffffffff));
+	memset(cut_rec, 0, sizeof(cut_rec));
+	ctx = xmp_create_context();
+	c = (struct context_data *)ctx;
+	cut_base = data;
+	cut_recording = 1;
+	r = xmp_load_module_from_memory(ctx, data, size);
+	cut_recording = 0;
+	if (r != 0 || c->m.mod.smp <= 0 || c->m.mod.smp > 256) {
+		if (r == 0)
+			xmp_release_module(ctx);
+		xmp_free_context(ctx);
+		free(data);
+		return;
+	}
+	nsmp = c->m.mod.smp;
+	w_pat = c->m.mod.pat;
+	w_trk = c->m.mod.trk;
+	w_chn = c->m.mod.chn;
+	w_ins = c->m.mod.ins;
+	w_len = c->m.mod.len;
+	memcpy(w_type, c->m.mod.type, sizeof(w_type));
+	full = (struct fullsmp *)calloc(nsmp, sizeof(*full));
+	cuts = (long *)malloc(sizeof(long) * (nsmp * 11 + 1));
+	for (i = 0; i < nsmp; i++) {
+		struct xmp_sample *x = &c->m.mod.xxs[i];
+		struct smprec *rc = &cut_rec[i];
+		int fl = frame_len(x->flg);
+		full[i].has = x->data != NULL && x->len > 0;
+		full[i].len = x->len;
+		full[i].flg = x->flg;
+		if (full[i].has && !(x->flg & XMP_SAMPLE_SYNTH) && total + (long)x->len * fl < (4L << 20)) {
+			full[i].pcm = (unsigned char *)malloc((size_t)x->len * fl);
+			memcpy(full[i].pcm, x->data, (size_t)x->len * fl);
+			total += (long)x->len * fl;
+		} else {
+			rc->valid = 0;
+		}
+		if (rc->valid && rc->len_decl > 0 && !(rc->flags & SAMPLE_FLAG_NOLOAD)) {
+			long e = rc->pos + rc->consumed;
+			for (k = -1; k <= 6; k++)
+				cuts[ncuts++] = rc->pos + k;
+			for (k = 0; k <= 2; k++)
+				cuts[ncuts++] = e - k;
+		}
+	}
+	xmp_release_module(ctx);
+	xmp_free_context(ctx);
+	qsort(cuts, ncuts, sizeof(long), cmp_long);
+	for (i = 0, j = 0; i < ncuts; i++)
+		if (cuts[i] > 0 && cuts[i] < size && (j == 0 || cuts[j - 1] != cuts[i]))
+			cuts[j++] = cuts[i];
+	ncuts = j;
+	cut_modules++;
+
+	for (i = 0; i < ncuts && fails < 4; i++) {
+		long cut;
+		/* at most maxcuts cut positions per module, spread over all samples */
+		if (ncuts > maxcuts && (i * (long)maxcuts / ncuts) == ((i + 1) * (long)maxcuts / ncuts))
+			continue;
+		cut = cuts[i];
+		for (entry = 0; entry < 3; entry++) {
+			ctx = xmp_create_context();
+			c = (struct context_data *)ctx;
+			memset(cut_rec2, 0, sizeof(cut_rec2));
+			cut_recording = 2;
+			r = load_entry(ctx, entry, data, cut);
+			cut_recording = 0;
+			cut_loads++;
+			if (r != 0) {
+				cut_rejected++;
+				xmp_free_context(ctx);
+				continue;
+			}
+			/* the rules below presuppose that the cut file is read as the same module: several loaders size their
+			 * tables from the file length (or another loader claims the shorter file) */
+			if (c->m.mod.smp != nsmp || c->m.mod.pat != w_pat || c->m.mod.trk != w_trk || c->m.mod.chn != w_chn
+			    || c->m.mod.ins != w_ins || c->m.mod.len != w_len || memcmp(c->m.mod.type, w_type, sizeof(w_type)) != 0) {
+				cut_other_layout++;
+				xmp_release_module(ctx);
+				xmp_free_context(ctx);
+				continue;
+			}
+			for (j = 0; j < nsmp && j < c->m.mod.smp; j++) {
+				struct xmp_sample *x = &c->m.mod.xxs[j];
+				struct smprec *rc = &cut_rec[j];
+				int fl = frame_len(full[j].flg), haspcm = x->data != NULL && x->len > 0, planar;
+				long avail, limit, expect;
+				if (!rc->valid || frame_len(x->flg) != fl || (x->flg & XMP_SAMPLE_SYNTH))
+					continue;
+				if (cut_rec2[j].valid && (cut_rec2[j].len_decl != rc->len_decl || cut_rec2[j].flags != rc->flags))
+					continue;	/* declared differently in the cut file */
+				cut_compared++;
+				avail = cut > rc->pos ? cut - rc->pos : 0;
+				limit = (rc->flags & SAMPLE_FLAG_ADPCM) ? (avail > 16 ? 2 * (avail - 16) : 0) : avail;
+				planar = (full[j].flg & XMP_SAMPLE_STEREO) && !(rc->flags & SAMPLE_FLAG_INTERLEAVED);
+				if (avail < rc->consumed)
+					cut_truncated_seen++;
+				if (avail == 0)
+					cut_empty_seen++;
+				if (rc->pos > cut) {
+					/* nothing of this sample is stored in the cut file */
+					if (haspcm) {
+						/* (before cd1ebb4 a truncated sample left its last odd bytes / incomplete ADPCM table unread and a
+						 * back-to-back loader decoded them as this sample) */
+						printf("O %s_k%ld_e%d cut-exposes-absent-sample (%s): file cut at %ld, sample %d is stored from %ld on, yet %d frames of %d "
+						       "bytes are exposed (read from %ld)\n", prefix, cut, j, ename[entry], cut, j, rc->pos, x->len, fl,
+						       cut_rec2[j].valid ? cut_rec2[j].pos : -1L);
+						fails++;
+					}
+					continue;
+				}
+				if (cut_rec2[j].valid && cut_rec2[j].pos != rc->pos) {
+					printf("O %s_k%ld_e%d cut-sample-read-from-wrong-offset (%s): file cut at %ld, sample %d is stored at %ld but was read "
+					       "from %ld (%d frames exposed, %ld of its bytes present)\n", prefix, cut, j, ename[entry], cut, j, rc->pos,
+					       cut_rec2[j].pos, haspcm ? x->len : 0, avail);
+					fails++;
+					continue;
+				}
+				if (haspcm && !(rc->flags & SAMPLE_FLAG_NOLOAD) && (long)x->len * fl > limit) {
+					printf("O %s_k%ld_e%d cut-exposes-more-than-present (%s): file cut at %ld, sample %d stored at %ld: %ld bytes present, "
+					       "%d frames of %d bytes exposed (whole file: %d frames)\n", prefix, cut, j, ename[entry], cut, j, rc->pos,
+					       avail, x->len, fl, full[j].len);
+					fails++;
+					continue;
+				}
+				if (haspcm && x->len > full[j].len) {
+					printf("O %s_k%ld_e%d cut-longer-than-whole (%s): file cut at %ld, sample %d exposes %d frames, the whole file %d\n",
+					       prefix, cut, j, ename[entry], cut, j, x->len, full[j].len);
+					fails++;
+					continue;
+				}
+				if (haspcm && full[j].pcm && !(planar && x->len < full[j].len)
+				    && memcmp(x->data, full[j].pcm, (size_t)x->len * fl) != 0) {
+					long d = 0;
+					while (x->data[d] == full[j].pcm[d])
+						d++;
+					printf("O %s_k%ld_e%d cut-foreign-bytes (%s): file cut at %ld, sample %d (stored at %ld, %d frames exposed) differs "
+					       "from the decoded stored bytes at byte %ld: %02x, stored %02x\n", prefix, cut, j, ename[entry], cut, j,
+					       rc->pos, x->len, d, x->data[d], full[j].pcm[d]);
+					fails++;
+					continue;
+				}
+				expect = limit / fl < full[j].len ? limit / fl : full[j].len;
+				if ((haspcm ? x->len : 0) != expect && cut_rec2[j].valid && !(rc->flags & SAMPLE_FLAG_NOLOAD)) {
+					cut_rulec++;
+					printf("O %s_k%ld_e%d cut-present-frames-not-exposed (%s): file cut at %ld, sample %d stored at %ld: %ld bytes present = %ld "
+					       "whole frames (whole file: %d), %d exposed\n", prefix, cut, j, ename[entry], cut, j, rc->pos, avail, expect,
+					       full[j].len, haspcm ? x->len : 0);
+					fails++;
+				}
+			}
+			xmp_release_module(ctx);
+			xmp_free_context(ctx);
+		}
+	}
+	for (i = 0; i < nsmp; i++)
+		free(full[i].pcm);
+	free(full);
+	free(cuts);
+	free(data);
+}
+
+static int cuts_mode(int maxcuts, int nfiles, char **files)
+{
+	int i;
+	for (i = 0; i < nfiles; i++)
+		cuts_one(files[i], maxcuts);
+	printf("cutstat modules=%ld loads=%ld rejected=%ld compared=%ld truncated_samples=%ld samples_at_or_after_eof=%ld not_all_present_exposed=%ld "
+	       "read_as_another_layout=%ld\n",
+	       cut_modules, cut_loads, cut_rejected, cut_compared, cut_truncated_seen, cut_empty_seen, cut_rulec, cut_other_layout);
 	return 0;
 }
 
@@ -1018,6 +1320,8 @@ int main(int argc, char **argv)
 		return replay(argv[2]);
 	if (!strcmp(argv[1], "corpus"))
 		return corpus(atol(argv[2]), argc - 3, argv + 3);
+	if (!strcmp(argv[1], "cuts"))
+		return cuts_mode(atoi(argv[2]), argc - 3, argv + 3);
 	if (argc < 4)
 		return 2;
 	if (!strcmp(argv[1], "exh")) {
